@@ -28,6 +28,7 @@ before it (or free Verus text when outside an @extract block).
     @rule R3 loop ORD index NAME         iter_mut loop -> index loop
     @rule R10 [NAME]                     `mut self` parameter -> `let mut NAME = self;` + renaming in the body
     @rule pub                            item made pub                                 [R0]
+    @rule R14 NAME                       NAME.len() on a &str -> str_len(NAME) (assumed wrapper)
     @rule R12                            debug_assert_eq!(a, b) -> debug_assert!((a) == (b))
     @rule ascribe "let x" "T"            type ascription added to a let                [R11]
     @rule pubfields                      struct fields made pub                      [R0]
@@ -285,6 +286,12 @@ class Extractor:
         if item.attr_start < item.start:
             self.count("R0-attrs-docs")
             self.dropped.append("%s: attributes/docs before `%s`" % (relfile, rl.norm_ws(src[item.start:item.start + 40])))
+
+        # R13: identifiers of the source that are reserved words inside verus! (`int`, `nat`) get a trailing underscore
+        for t in rl.code_tokens(rl.tokenize(src[item.start:item.end])):
+            if t.kind == "ident" and t.text in ("int", "nat"):
+                add(item.start + t.start, item.start + t.end, t.text + "_", ("rule", "R13-verus-keyword", base_label))
+                self.count("R13-verus-keyword")
 
         # sub-items (members of impl / nested items of fn)
         members = {}
@@ -575,6 +582,21 @@ class Extractor:
             if n == 0:
                 raise GenError("rule R12 no longer matches in %s" % cur_label)
             self.count("R12-assert-eq", n)
+            return
+        if rule == "R14":
+            # `NAME.len()` on a `&str` local NAME  =>  `str_len(NAME)`: vstd gives `str::len` no usable postcondition and
+            # forbids a second specification, so the call is redirected to an assumed wrapper with the same body
+            name = args[1]
+            toks = cur.toks
+            n = 0
+            for q in range(cur.body_open_idx, cur.body_close_idx - 4):
+                if (toks[q].kind == "ident" and toks[q].text == name and toks[q + 1].text == "." and toks[q + 2].text == "len"
+                        and toks[q + 3].text == "(" and toks[q + 4].text == ")" and toks[q - 1].text != "."):
+                    add(toks[q].start, toks[q + 4].end, "str_len(%s)" % name, ("rule", "R14-str-len", cur_label, d.line))
+                    n += 1
+            if n == 0:
+                raise GenError("rule R14 no longer matches in %s" % cur_label)
+            self.count("R14-str-len", n)
             return
         if rule == "ascribe":
             # @rule ascribe "let mut x" "T" : add a type ascription to a let (Rust infers the same type;
